@@ -196,6 +196,7 @@ struct Engine {
   virtual std::vector<std::string> StubComponents() const = 0;
   virtual std::string Rule(const std::string& focus) const = 0;
   virtual std::vector<std::string> Assumptions(const std::string& focus) const { (void)focus; return {}; }
+  virtual unsigned WatchdogSecs() const { return 12; }   // CPU seconds one run may take
 };
 
 int Main(int argc, char** argv, Engine& e);
